@@ -142,6 +142,8 @@ def model_input(run, capsline, forceval=1):
     if run.pre is None or run.R is None or "ret" not in run.R or run.status != "ok":
         return None
     sp = kvs(run.spec)
+    if sp.get("nullf") == "1" or sp.get("nullopt") == "1" or sp.get("nullx") == "1":
+        return None                     # NULL pointer arguments: outside the wrapper model (checked by the monitor only)
     g = run.pre
     obj = ["obj"] + ["%s=%s" % (k, g[k]) for k in ("alg", "n", "max", "hasf", "lb", "ub", "stopval", "ftol_rel", "ftol_abs", "xtol_rel",
                                                     "xtol_abs", "xw", "dx", "maxeval", "maxtime", "numevals", "fstop", "pop", "vs")]
